@@ -185,6 +185,8 @@ type CalmResult struct {
 	LateWrites  []string          // writes issued after convergence
 	CensusDiffs []string
 	Converged   bool
+	// QuietButNotConverged: the budget ran out, yet the last round issued no write and caches were in sync
+	QuietButNotConverged bool
 }
 
 // LiveSets returns the sets the convergence target applies to (existing, not being deleted).
@@ -235,6 +237,7 @@ func (r *Runner) Calm(quiet int) *CalmResult {
 			res.Converged = true
 			break
 		}
+		res.QuietButNotConverged = !all && writes == 0 && w.PendingTotal() == 0
 	}
 	snap := w.Srv.Snap()
 	for _, s := range r.LiveSets() {
@@ -243,6 +246,13 @@ func (r *Runner) Calm(quiet int) *CalmResult {
 		}
 	}
 	if !res.Converged {
+		if res.QuietButNotConverged {
+			for _, s := range r.LiveSets() {
+				if d := Census(snap, s); d != "" {
+					res.CensusDiffs = append(res.CensusDiffs, s.Name+": "+d)
+				}
+			}
+		}
 		return res
 	}
 	r.logf("calm: converged after %d rounds; %d quiet reconciles follow", res.Rounds, quiet)
